@@ -371,7 +371,8 @@ def c20():
         f = mm["fault"]
         if f["loader"] == "grl" and f["val"] == "deep" and "C20-grl-deep-nesting" in known and not mm["what"].startswith("the loader panicked"):
             return known["C20-grl-deep-nesting"]["what"]
-        if f["loader"] == "grl" and f["kind"] == "repeat" and "C20-grl-long-chain" in known and not mm["what"].startswith("the loader panicked"):
+        if f["loader"] == "grl" and (f["kind"] == "repeat" or f["val"] == "longchain") and "C20-grl-long-chain" in known \
+                and not mm["what"].startswith("the loader panicked"):
             return known["C20-grl-long-chain"]["what"]
         return None
     return simple_cases_check(
